@@ -5,7 +5,7 @@ G = "internal/graph"
 
 MODELS_QUICK = ["direct", "wildcard", "union_computed", "userset", "ttu", "exclusion", "intersection", "condition",
                 "inter_excl", "shared_tuples", "userset_flat", "h6", "condition_userset", "cond_wild", "cond_shapes"]
-MODELS_ALL = MODELS_QUICK + ["computed_chain", "rec_intersection", "userset_ttu_mix", "ttu_excl"]
+MODELS_ALL = MODELS_QUICK + ["computed_chain", "rec_intersection", "userset_ttu_mix", "ttu_excl", "cond_excl"]
 
 
 def c01(tier, seed):
@@ -23,6 +23,11 @@ def c01(tier, seed):
     for m in ["dashed", "cond_wild"] + ([] if q else ["userset", "ttu"]):
         jobs.append(J(G, "VerifE01Check", model=m, maxcands=12, prior=1, subjects="min", timeout_ms=60000, unwind=64, max_paths=8000 if q else 100000))
     # a userset cycle next to a granting path under an intersection / exclusion, operands consumed one at a time
+    # the second object of every type is called `type:2*` (an ordinary id that ends in the wildcard character)
+    for m in ["wildcard", "exclusion"] + ([] if q else ["inter_excl", "cond_wild", "userset"]):
+        jobs.append(J(G, "VerifE01Check", model=m, maxcands=14, invalid=0, subjects="all", starid=1, timeout_ms=60000, unwind=64, max_paths=8000 if q else 100000))
+    # an unevaluable condition under `but not` (request 5 = document:1#viewer@user:1; whole universe; every request in thorough)
+    jobs.append(J(G, "VerifE01Check", model="cond_excl", maxcands=20, invalid=0, subjects="min", req=5, timeout_ms=60000, unwind=64, max_paths=8000))
     # (the WHOLE universe of 20 tuples: the cycle, the granting path and both operands must be storable at once;
     #  requests 7 and 15 are document:1#auditor@user:1 and document:1#viewer@user:1, thorough: every request)
     for r in (7, 15):
@@ -86,6 +91,11 @@ def c04(tier, seed):
                       seed=seed % 7, timeout_ms=60000, unwind=64, max_paths=8000 if q else 100000))
         if not q:
             jobs.append(J(G, "VerifE01Check", model=m, maxcands=12, ctx=3, seed=(seed + 2) % 7, timeout_ms=60000, unwind=64, max_paths=100000))
+    # object types one of whose names is a prefix of the other (`team`, `team2`: ordering by type and ordering by the
+    # object string disagree); the six tuples of both types travel as contextual tuples. Requests 11 / 19 are
+    # team2:1#member@user:1 and team:1#member@user:1, request 3 (thorough) is doc:1#viewer@user:1
+    for r in (11, 19) if q else (11, 19, 3):
+        jobs.append(J(G, "VerifE01Check", model="sibling_types", maxcands=16, ctx=6, invalid=0, subjects="min", req=r, timeout_ms=60000, unwind=64, max_paths=8000 if q else 100000))
     return jobs
 
 
